@@ -81,9 +81,9 @@ def pool_eval():
 def pool_interface():
     exprs = ['1', '1.5', '"s"', 'true', '()', '(1, 2)', 'a', 'f', 's', 'a = 3', 'f = 3', 'f = 2.5', 'a = 1.5; a = 3', 'f = 1', 's = 1', 'a = "x"', 'b = true; b = 1', 't = (1, 2); t = 1',
              'missing', '1 / 0', '1 +', 'a + f', 'a + 1', 'f * 2', 'len(s)', 'a; f', 'a, f', '9007199254740993', 'x = 1.5; x = 3', 'x = 3; x = 1.5', '-a', '!b', 'if(true, 1, 2.5)', 'typeof(a)',
-             '+5', '-9223372036854775808', ' 5 ', '0x10', '5.0', '+5.5', '-0x8000000000000000', '1e3', 'TRUE', '  true', '"5"', '(5)', '5;', '5,',
+             't', 'u = t; u', 'e', '(t, e)', '+5', '-9223372036854775808', ' 5 ', '0x10', '5.0', '+5.5', '-0x8000000000000000', '1e3', 'TRUE', '  true', '"5"', '(5)', '5;', '5,',
              'z = 5; z == 5', 'z = true; z', 'z = 1; z', 'z = 1.5; z', 'z = "s"; z', 'z = (1, 2); z', 'z = 1;', 'z = 1; z + 0.5', 'a += 1; a', 'b &&= false; b', 's += "c"; s']
-    binds = ['a=int:7', 'f=float:4612811918334230528', 's=str:6162', 'b=bool:1']
+    binds = ['a=int:7', 'f=float:4612811918334230528', 's=str:6162', 'b=bool:1', 't=tuple:', 'e=empty']
     return [('typed', e, binds) for e in exprs] + [('typed', e, []) for e in exprs]
 
 
@@ -108,7 +108,7 @@ def pool_display():
              'v=float:9223372036854775808', 'v=str:', 'v=str:2261c3a422', 'v=bool:0', 'v=tuple:str:61;float:0']
     out = []
     for b in binds:
-        for e in ['v', 'str::from(v)', '(v, v)', 'v + 1', 'v == v', 'len(v)', 'typeof(v)', 'v = 1']:
+        for e in ['v', 'str::from(v)', '(v, v)', 'v + 1', 'v == v', 'len(v)', 'typeof(v)', 'v = 1', 'min(v)', 'max(v)', 'contains(v, 1)', 'contains_any(v, v)', 'if(true, v, v)', 'str::trim(v)', 'math::abs(v)']:
             out.append(('eval', e, [b]))
     out += [('tree', e, []) for e in ['()', '(())', '((), ())', ';', ',', '1, (), 2', 'f()', 'a = ()', '-()', '"\\"q\\""', '(1, (2, (3, ())))']]
     return out
@@ -194,6 +194,7 @@ POOLS = [
     (('tree::insert', 'tree::collapse', 'tree::tokens_to', 'tree::has_', 'operator::precedence', 'operator::is_', 'operator::max_', 'token::is_'), pool_tree),
     (('token::',), pool_lexer),
     (('function::builtin',), pool_builtins),
+    (('function::builtin',), pool_display),
 ]
 
 _BASE = {}
@@ -239,14 +240,15 @@ def show(kind, expr):
     return expr
 
 
-def search(prop, failure, scratch, seed, run_lines, hx):
+def search(prop, failure, scratch, seed, run_lines, hx, panic_only=False):
     ob = failure.get('obligation', '')
     if not ob.startswith('verus:'):
         return None
     fn = ob[len('verus:'):].split('#')[0]
     import witness
-    base = build_base(scratch, None)
-    if not base or not witness.build_replay(scratch):
+    # a panic of the working tree is conclusive by itself (C01 probe): no committed tree needed for comparison
+    base = None if panic_only else build_base(scratch, None)
+    if (not base and not panic_only) or not witness.build_replay(scratch):
         return None
     pools = [mk for keys, mk in POOLS if any(fn.startswith(k) or k in fn for k in keys)]
     rest = [mk for keys, mk in POOLS if mk not in pools]
@@ -256,15 +258,18 @@ def search(prop, failure, scratch, seed, run_lines, hx):
         # function calls need a context function: the replay driver only binds variables, so `f`/`g` stay unknown
         lines = [encode(kind, expr, binds, hx) for kind, expr, binds in cases]
         cur = run_lines(scratch, lines)
-        p = subprocess.run([base], input='\n'.join(lines) + '\n', capture_output=True, text=True, timeout=300)
-        old = p.stdout.split('\n')[:len(lines)]
         if not cur:
             continue
-        diffs = [i for i in range(min(len(cur), len(old))) if cur[i] != old[i]]
+        if panic_only:
+            old = ['' for _ in lines]
+        else:
+            p = subprocess.run([base], input='\n'.join(lines) + '\n', capture_output=True, text=True, timeout=300)
+            old = p.stdout.split('\n')[:len(lines)]
+        diffs = [i for i in range(min(len(cur), len(old))) if cur[i] != old[i] and (not panic_only or (cur[i].startswith('PANIC') and not old[i].startswith('PANIC')))]
         if diffs:
             i = min(diffs, key=lambda k: len(show(cases[k][0], cases[k][1])))   # shortest differing input
             kind, expr, binds = cases[i]
             return {'kind': kind, 'input': '%s %r%s' % (kind, show(kind, expr), (' with ' + ', '.join(binds)) if binds else ''), 'expr': expr, 'binds': binds,
-                    'observed': cur[i], 'expected': 'behaviour of the committed tree (obligation discharged there): ' + old[i],
+                    'observed': cur[i], 'expected': ('returns normally (Ok or Err), no panic' if panic_only else 'behaviour of the committed tree (obligation discharged there): ' + old[i]),
                     'differing_inputs_in_pool': len(diffs), 'pool': mk.__name__}
     return None
